@@ -34,6 +34,11 @@ def cases(seed, tier):
             f = sorted(set(f + ["constraint", "cs"]))    # a constraint bounded by a continuous state: room for agents without feasible choice
         out.append({"kind": "gen", "seed": seed * 1_000_003 + 31337 + i, "force": f, "n_params": 1, "budget": 3000,
                     "n_agents": [5, 7, 11, 13][i % 4] if tier == "quick" else [5, 7, 13, 64, 256][i % 5]})
+        if i in (2, 16):
+            # large batches (more than 1024 rows of the data state-choice space, not a multiple of it): blocked / chunked
+            # evaluation must not let rows of the last block pick up other agents
+            out[-1]["n_agents"] = 1300 if i == 2 else 2100
+            out[-1]["budget"] = 600
     return out
 
 
